@@ -507,7 +507,8 @@ Definition parse_proto_msg (ct : str) : option mtype :=
 Record hreq := mkHReq { h_method : str; h_ctype : str; h_cenc : str; h_body : str }.  (* "" = header absent *)
 (* what the store returns: a nil response, or status code / statistics, and whether it returns an error *)
 Record store_beh := mkSB { sb_nil : bool; sb_status : Z; sb_samples : Z; sb_hist : Z; sb_exem : Z; sb_err : bool }.
-(* response status, the three written-statistics headers if set, and the store call if it happened *)
+(* response status, the three written-statistics headers if set, and the store call if it happened;
+   HPanic is never produced by the model, it stands for a panic observed in the implementation *)
 Inductive hout :=
 | HPanic (call : mtype * str)
 | HOut (status : Z) (written : option (Z * Z * Z)) (call : option (mtype * str)).
@@ -523,8 +524,9 @@ Definition serve_inner (accepted : list mtype) (sb : store_beh) (method ctype bo
     | None => HOut 415 None None
     | Some t =>
         if negb (existsb (mtype_eqb t) accepted) then HOut 415 None None
-        else if sb_nil sb then HPanic (t, body)   (* writeResponse.SetHeaders on a nil *WriteResponse *)
         else
+          (* a nil *WriteResponse from the store is replaced by an empty one: zero statistics, status code 0 *)
+          let sb := if sb_nil sb then mkSB false 0 0 0 0 (sb_err sb) else sb in
           let w := Some (sb_samples sb, sb_hist sb, sb_exem sb) in
           if sb_err sb
           then HOut (if sb_status sb =? 0 then 500 else sb_status sb) w (Some (t, body))
@@ -573,7 +575,9 @@ Definition wf_ast (a : ct_ast) : Prop := WS (a_lead a) /\ WS (a_trail a) /\ TOK 
 Definition enc_ok (r : hreq) : bool := is_empty (h_cenc r) || str_eqb (h_cenc r) snappy_name.
 Definition eff_ctype (r : hreq) : str := if is_empty (h_ctype r) then app_proto else h_ctype r.
 Definition store_status (sb : store_beh) : Z :=
-  if sb_err sb then (if sb_status sb =? 0 then 500 else sb_status sb) else 204.
+  if sb_err sb then (if sb_nil sb || (sb_status sb =? 0) then 500 else sb_status sb) else 204.
+Definition store_written (sb : store_beh) : Z * Z * Z :=
+  if sb_nil sb then (0, 0, 0) else (sb_samples sb, sb_hist sb, sb_exem sb).
 
 Definition opt3_eqb (a b : option (Z * Z * Z)) : bool :=
   match a, b with None, None => true | Some x, Some y => eq3 x y | _, _ => false end.
@@ -593,7 +597,9 @@ Definition handler_spec_ok (decode : str -> option str) (accepted : list mtype) 
       match decode (h_body r) with Some d => str_eqb d payload | None => false end &&
       existsb (mtype_eqb t) accepted &&
       match ct with Some (Some t') => mtype_eqb t t' | Some None => false | None => true end &&
-      (sb_nil sb || opt3_eqb written (Some (sb_samples sb, sb_hist sb, sb_exem sb))) &&
+      (* statistics headers always set (zero when the store returned no response); 204, or on a store error the
+         store's status, 500 if it set none *)
+      opt3_eqb written (Some (if sb_nil sb then (0, 0, 0) else (sb_samples sb, sb_hist sb, sb_exem sb))) &&
       (status =? (if sb_err sb then (if sb_nil sb || (sb_status sb =? 0) then 500 else sb_status sb) else 204))
   | HOut status written None =>
       opt3_eqb written None &&
